@@ -1265,7 +1265,7 @@ def check_c12(tier, seed, replay):
     # 2. ThreadSanitizer: free running with yield/sleep perturbation
     env = dict(os.environ)
     env['TSAN_OPTIONS'] = 'halt_on_error=0:exitcode=66'
-    jobs = [(sc, sd, nt) for sc in ('s1', 's2', 's3', 's4', 's5', 's6', 's7', 's8', 's9', 'f1') for sd in seeds for nt in nthreads]
+    jobs = [(sc, sd, nt) for sc in ('s1', 's2', 's3', 's4', 's5', 's6', 's7', 's8', 's9', 's10', 'f1') for sd in seeds for nt in nthreads]
 
     def run_tsan(j):
         sc, sd, nt = j
@@ -1296,7 +1296,7 @@ def check_c12(tier, seed, replay):
     unheld = collections.Counter()
     lin_fail = 0
     nops = 0
-    hjobs = [(sc, sd, nt) for sc in ('s1', 's2', 's3', 's4', 's5', 's6', 's7', 's8', 's9', 'f1', 'l1') for sd in seeds for nt in nthreads]
+    hjobs = [(sc, sd, nt) for sc in ('s1', 's2', 's3', 's4', 's5', 's6', 's7', 's8', 's9', 's10', 'f1', 'l1') for sd in seeds for nt in nthreads]
     try:
         tmodel = vlib.build_lean(None, vlib.LEAN_DIR)
     except vlib.BuildError as e:
